@@ -56,6 +56,7 @@ Inductive cpc :=
 | SLocked     (* start.locked      : next = shouldBeRunning := true *)
 | SSet        (* start.after_set   : next = unlock *)
 | SUnl        (* start.unlocked    : next = notify_one *)
+| SNot        (* start.after_notify: next = leave the if *)
 | SRet        (* start.return      : next = return to the caller *)
 | PChk        (* stop.after_check  : read shouldBeRunning = true; next = shouldBeRunning := false *)
 | PClr        (* stop.after_clear  : next = read insideLoopBody *)
@@ -150,7 +151,8 @@ Definition step_ctl (l : launch) (s : state) : option state :=
   | SChk => if mfree s then Some (set_cp (set_mtx s MC) SLocked) else None
   | SLocked => Some (set_cp (set_run s true) SSet)
   | SSet => Some (set_cp (set_mtx s MFree) SUnl)
-  | SUnl => Some (set_cp (notify s) SRet)
+  | SUnl => Some (set_cp (notify s) SNot)
+  | SNot => Some (set_cp s SRet)
   | SRet => Some (set_cp (set_start_ret s true) CIdle)
   | PChk => Some (set_cp (set_run s false) PClr)
   | PClr | PSpin => Some (set_cp s (if inside s then PSpin else PRet))
@@ -206,7 +208,7 @@ Definition cpc_idx (x : cpc) : nat :=
   match x with
   | CIdle => 0 | SChk => 1 | SLocked => 2 | SSet => 3 | SUnl => 4 | SRet => 5 | PChk => 6
   | PClr => 7 | PSpin => 8 | PRet => 9 | DBL => 10 | DLocked => 11 | DClrA => 12 | DClr => 13
-  | DUnl => 14 | DNot => 15 | DRet => 16 | CDead => 17
+  | DUnl => 14 | DNot => 15 | DRet => 16 | CDead => 17 | SNot => 18
   end.
 Definition mtx_idx (x : mowner) : nat := match x with MFree => 0 | ML => 1 | MC => 2 end.
 Definition cv_idx (x : cvst) : nat := match x with CvNone => 0 | CvAsleep => 1 | CvNotified => 2 end.
@@ -322,7 +324,7 @@ Definition deadlock_free_b (sys : system) (s : state) : bool := has_succ sys s |
 
 (* the schedule that refutes stop-safety on the Original code *)
 Definition refuting_schedule : list label :=
-  [CallStart; StepC; StepC; StepC; StepC; StepC;       (* start() runs to completion *)
+  [CallStart; StepC; StepC; StepC; StepC; StepC; StepC;   (* start() runs to completion *)
    StepL; StepL; StepL;                                (* loop: alive, alive, reads shouldBeRunning = true *)
    CallStop; StepC; StepC; StepC;                      (* stop(): clears the flag, reads inside = false, returns *)
    StepL; StepL].                                      (* loop: inside := true; body entered *)
